@@ -186,6 +186,7 @@ void Ctx::c01() {
             auto it = pub_receipts.find(o.id);
             std::string why = "no PUBLISH with this topic was ever received by the broker";
             bool ok = false;
+            if (relaxed_witness() && it == pub_receipts.end()) continue;   // identifier and write time unknown: cannot be judged under repeated acknowledgements
             if (relaxed_witness() && it != pub_receipts.end()) {
                 // The broker repeats acknowledgements in this run: an acknowledgement of an earlier exchange with the same
                 // identifier that reaches the client after this PUBLISH was handed to the transport cannot be told apart
@@ -198,7 +199,11 @@ void Ctx::c01() {
                     uint64_t wstart = r.first_group ? s.net.groups[r.first_group - 1].seq_start : r.seq;
                     for (auto& sp : s.broker.sent) {
                         if (sp.conn != r.conn || sp.hostile || sp.pkt.pid != r.pkt.pid) continue;
-                        if (!sp.delivered_seq || sp.delivered_seq > d->seq || sp.delivered_seq < wstart) continue;
+                        if (!sp.delivered_seq || sp.delivered_seq > d->seq) continue;
+                        // not a witness: an acknowledgement read while this request was already queued but not yet handed to the
+                        // transport (a correct client discards those when it starts the write). One read before the request
+                        // existed may have been parsed after it was initiated (several packets per read), so it is accepted.
+                        if (sp.delivered_seq > o.init_seq && sp.delivered_seq < wstart) continue;
                         bool final_ack = (o.qos == 1 && sp.pkt.type == PUBACK) || (o.qos == 2 && (sp.pkt.type == PUBCOMP || (sp.pkt.type == PUBREC && sp.pkt.rc >= 0x80)));
                         if (!final_ack) continue;
                         bool props_ok = sp.pkt.type == PUBREC || props_equal(sp.pkt.props, d->c.props);
@@ -281,7 +286,7 @@ void Ctx::c14() {
                     uint64_t wstart = r.first_group ? s.net.groups[r.first_group - 1].seq_start : r.seq;
                     for (auto& sp : s.broker.sent) {
                         if (sp.conn != r.conn || sp.hostile || sp.pkt.pid != r.pkt.pid) continue;
-                        if (relaxed_witness() ? (sp.delivered_seq < wstart) : (sp.seq < r.seq)) continue;
+                        if (relaxed_witness() ? (sp.delivered_seq > o.init_seq && sp.delivered_seq < wstart) : (sp.seq < r.seq)) continue;
                         if (sp.pkt.type != (sub ? SUBACK : UNSUBACK)) continue;
                         if (!sp.delivered_seq || sp.delivered_seq > d->seq) continue;
                         if (sp.pkt.rcs == d->c.rcs && props_equal(sp.pkt.props, d->c.props)) ok = true;
@@ -380,6 +385,7 @@ void Ctx::online() {
             auto p2 = v.find('|', p1 + 1);
             std::string prop = v.substr(0, p1), orc = v.substr(p1 + 1, p2 - p1 - 1), det = v.substr(p2 + 1);
             if (hostile_run && prop == "C04") continue;
+            if (relaxed_witness() && prop == "C07") continue;    // a repeated acknowledgement releases a re-used identifier early in the client: not the client's fault
             fail(prop.c_str(), orc.c_str(), det);
         }
     }
